@@ -8,6 +8,7 @@ import (
 	"os/exec"
 	"path/filepath"
 	"runtime"
+	"runtime/pprof"
 	"sort"
 	"strconv"
 	"strings"
@@ -153,6 +154,7 @@ func main() {
 		only := fs.String("only", "", "run only this harness")
 		workers := fs.Int("workers", runtime.NumCPU(), "workers")
 		noval := fs.Bool("novalidate", false, "skip native validation (development only; evidence marks it)")
+		prof := fs.String("cpuprofile", "", "write cpu profile")
 		id := os.Args[2]
 		fs.Parse(os.Args[3:])
 		if *tier == "" {
@@ -160,6 +162,14 @@ func main() {
 		}
 		if *tier != "thorough" {
 			*tier = "quick"
+		}
+		if *prof != "" {
+			f, _ := os.Create(*prof)
+			pprof.StartCPUProfile(f)
+			rc := runCheck(id, *tier, *verbose, *only, *workers, *noval)
+			pprof.StopCPUProfile()
+			f.Close()
+			os.Exit(rc)
 		}
 		os.Exit(runCheck(id, *tier, *verbose, *only, *workers, *noval))
 	case "list":
